@@ -97,7 +97,8 @@ CHECKS = {
     },
     "C02": {
         "runs": [
-            R(LAB, "^TestC02", {"checks": 1200, "timeout": 600}, {"checks": 30000, "shards": 16, "timeout": 2400}),
+            R(LAB, "^TestC02Response", {"checks": 1200, "timeout": 600}, {"checks": 30000, "shards": 16, "timeout": 2400}),
+            R(LAB, "^TestC02EarlyReply$", {"checks": 40, "timeout": 600}, {"checks": 400, "shards": 4, "timeout": 2400}),
         ],
     },
     "C01": {
